@@ -804,6 +804,17 @@ func (g *Gen) evalCall(env *Env, x *ECall) Val {
 			panic(evalErr("zerovalue of a non-Go type " + sort))
 		}
 		return Val{T: t, S: g.zero(t)}
+	case "unboxas":
+		// unboxas(x, "pkg.Type"): the value an interface holds, read as that (non-interface) type; meaningful under typeis(x, "pkg.Type")
+		v := g.eval(env, x.Args[0])
+		t, sort := g.specType(x.Args[1].(*EStr).S)
+		if t == nil {
+			panic(evalErr("unboxas: unknown type " + x.Args[1].(*EStr).S))
+		}
+		_, id := g.typeTag(t)
+		g.uf("box."+id, []string{sort}, "Iface")
+		unbox := g.uf("unbox."+id, []string{"Iface"}, sort)
+		return Val{T: t, S: fmt.Sprintf("(%s %s)", unbox, v.S)}
 	case "typeis":
 		// typeis(x, "pkg.Type")
 		v := g.eval(env, x.Args[0])
